@@ -9,6 +9,7 @@ spec -> code : TLC explores every history of numbered constructs and counter man
                table is compared with Counter.Roman/roman/Alph/alph/arabic for every value.
 """
 import os
+import re
 
 from .. import tlc
 from ..core import MachineryError, pmap
@@ -18,6 +19,7 @@ CFG = '''CONSTANTS
   NumDepths = {%s}
   MaxEvents = %d
   SetResets = %s
+  NewCounterWithin = TRUE
 INIT Init
 NEXT Next
 VIEW view
@@ -41,7 +43,7 @@ SECNAMES = ['chapter', 'section', 'subsection', 'subsubsection']
 
 def concretise(beh):
     out = [r'\documentclass{%s}' % beh['cls'], r'\newtheorem{tha}{Theorem}', r'\newtheorem{ths}[tha]{Lemma}',
-           r'\newtheorem{thw}{Proposition}[section]', r'\begin{document}']
+           r'\newtheorem{thw}{Proposition}[section]', r'\newcounter{ucw}[section]', r'\begin{document}']
     k = 0
     for e in beh['h']:
         k += 1
@@ -53,6 +55,8 @@ def concretise(beh):
             out.append(r'\begin{equation}x=%d\end{equation}' % k)
         elif kind == 'eqnarray':
             out.append(r'\begin{eqnarray}a&=&b%s\\ c&=&d%s\end{eqnarray}' % (r'\nonumber' if e['a'] else '', r'\nonumber' if e['b'] else ''))
+        elif kind == 'uc':
+            out.append(r'\stepcounter{ucw}\emph{UC\arabic{ucw};}')
         elif kind == 'fig':
             out.append(r'\begin{figure}F\caption{C%s}\end{figure}' % w)
         elif kind == 'tab':
@@ -121,6 +125,10 @@ def project(doc):
             out.append(('fig' if par is not None and par.nodeName == 'figure' else 'tab', txt(node.ref)))
         elif name == 'thmenv':
             out.append(('thm', txt(node.ref)))
+        elif name == 'emph':
+            m = re.search(r'UC(\d+);', str(node.textContent))
+            if m:
+                out.append(('uc', m.group(1)))
         elif name == 'item':
             out.append(('item', str(node.position)))
         # arguments (titles) hold no numbered objects in generated documents
